@@ -145,18 +145,21 @@ impl<T: Qcow2IoOps> Qcow2Dev<T> {
             split.guest_addr(),
         );
 
-        self.add_l2_slice(
-            l1_e,
-            key,
-            split.l2_slice_off_in_table(info),
-            L2Table::new(None, 1 << info.l2_slice_bits, info.cluster_bits()),
-        )
-        .await?;
+        loop {
+            self.add_l2_slice(
+                l1_e,
+                key,
+                split.l2_slice_off_in_table(info),
+                L2Table::new(None, 1 << info.l2_slice_bits, info.cluster_bits()),
+            )
+            .await?;
 
-        if let Some(entry) = l2_cache.get(key) {
-            Ok(entry)
-        } else {
-            Err("Fail to load l2 table".into())
+            // Until we hold a reference the slice is unused, so a load of
+            // another slice which completes meanwhile may have evicted it
+            // again: that isn't a failure, just load it once more
+            if let Some(entry) = l2_cache.get(key) {
+                return Ok(entry);
+            }
         }
     }
 
